@@ -269,7 +269,7 @@ impl Scenario for C05 {
     }
 
     fn rule(&self) -> String {
-        "Each run: one generator type (20 types incl. JitterRng over a scripted clock), one seeding route, a native-width pre-advance of 0..=block_len+2 calls (every buffer index / half flag is a start state), then 1..64 operations from a per-run mix of next_u32/next_u64/fill_bytes(n) with n in {0, 1..9, block-9..block+9, 2*block+-9, 3*block+7, rare 8 KiB}, then a 2-block native drain. Every returned value/byte is compared with the projection table of the statement applied to the word stream of an identically seeded twin driven with native-width calls only. distinct_nontrivial = number of distinct (type, op kind, buffer index at call, half flag, n mod 8, straddles-refill, n>0) signatures reached by operations.".into()
+        "Each run: one generator type (20 types incl. JitterRng over a scripted clock), one seeding route, a native-width pre-advance of 0..=block_len+2 calls (every buffer index / half flag is a start state), then 1..64 operations from a per-run mix of next_u32/next_u64/fill_bytes(n) with n in {0, 1..9, block-9..block+9, 2*block+-9, 3*block+7, rare 8 KiB}, then a 2-block native drain. Every returned value/byte is compared with the projection table of the statement applied to the word stream of an identically seeded twin driven with native-width calls only. distinct_nontrivial = number of distinct (type, op kind, buffer index at call, half flag, n mod 8, straddles-refill, n>0) signatures reached by operations. One run in four makes every call the way generic code resolves it (trait-qualified) instead of the concrete-type method/path call; JitterRng runs may have the real clock flying (wall-clock seam). The whole check is repeated in a build with -C target-cpu=native.".into()
     }
     fn assumptions(&self) -> Vec<String> {
         vec![
